@@ -315,7 +315,7 @@ impl Prop for C02 {
             "fault-free configuration: constant latency, FIFO delivery, no loss (decode correctness must not be hidden behind fault relaxations)".into(),
             "bzip2-compressed split replies come from a pool built by python3 bz2 (tools/bz2pool.py, committed as gdsim/data/bz2pool.json): no bzip2 encoder is available offline in Rust; the model checks that its own encoding of the pool state is byte-identical to what python compressed".into(),
             "A2S_INFO replies are not split for the protocol-7 / app-240 header quirk (the client cannot know the protocol before the info reply)".into(),
-            "extra_data None and Some(all None) are treated as the same information".into(),
+            "extra_data is None exactly when the reply ends before the extra-data flag byte, and Some (every member None for flag byte 0) otherwise".into(),
         ]
     }
 
